@@ -1,6 +1,276 @@
-//! C13 — not built yet.
-use crate::ev::Tier;
-pub fn main(_tier: Tier, _replay: Option<serde_json::Value>) -> i32 {
-    eprintln!("C13: check not built yet");
-    2
+//! C13 — subgroup boundary: only prime-order subgroup points are admitted.
+
+use dusk_jubjub::{JubJubExtended, GENERATOR_EXTENDED, GENERATOR_NUMS_EXTENDED};
+use dusk_plonk::prelude::*;
+use serde_json::json;
+
+use crate::e2::Gadget;
+use crate::ev::{Run, Tier};
+use crate::fe::*;
+use crate::gadget::*;
+use crate::m5::{self, Pt};
+use crate::prog::Prog;
+
+fn subgroup_points(tier: Tier) -> Vec<(String, Pt)> {
+    let g = Pt::from_jubjub(GENERATOR_EXTENDED);
+    let gn = Pt::from_jubjub(GENERATOR_NUMS_EXTENDED);
+    let rho = U320::from_fe(&m5::low_bits(&Rho::new(seed(), 1313).next_fe(), 250));
+    let mut v = vec![
+        ("O".to_string(), Pt::identity()),
+        ("G".to_string(), g),
+        ("2G".to_string(), g.double().unwrap()),
+        ("-G".to_string(), g.neg()),
+        ("rhoG".to_string(), g.mul(&rho).unwrap()),
+    ];
+    if tier == Tier::Thorough {
+        v.push(("Gnums".to_string(), gn));
+        v.push(("7Gnums".to_string(), gn.mul(&U320::from_u64(7)).unwrap()));
+    }
+    v
+}
+
+fn offcurve_points() -> Vec<(String, Pt)> {
+    let g = Pt::from_jubjub(GENERATOR_EXTENDED);
+    let v = vec![
+        ("(0,0)".to_string(), Pt { x: zero(), y: zero() }),
+        ("(1,1)".to_string(), Pt { x: one(), y: one() }),
+        ("(Gx,Gy+1)".to_string(), Pt { x: g.x, y: g.y + one() }),
+        ("(Gx+1,Gy)".to_string(), Pt { x: g.x + one(), y: g.y }),
+        ("(0,-1)x2".to_string(), Pt { x: zero(), y: fe(2) }),
+        ("(2,3)".to_string(), Pt { x: fe(2), y: fe(3) }),
+    ];
+    v.into_iter().filter(|(_, p)| !p.on_curve()).collect()
+}
+
+/// candidate points P: subgroup points, every torsion coset, off-curve pairs
+fn candidates(tier: Tier) -> Vec<(String, Pt)> {
+    let tors = m5::torsion_points();
+    let mut out = vec![];
+    let subs = subgroup_points(tier);
+    for (n, s) in &subs {
+        out.push((n.clone(), *s));
+    }
+    let coset_bases = tier.pick(2usize, subs.len());
+    for (n, s) in subs.iter().take(coset_bases) {
+        for (i, t) in tors.iter().enumerate().skip(1) {
+            out.push((format!("{}+T{}", n, i), s.add(t).unwrap()));
+        }
+    }
+    out.extend(offcurve_points());
+    out
+}
+
+/// auxiliary points Q a prover may choose for P
+fn aux_points(p: &Pt, tier: Tier) -> Vec<(String, Pt)> {
+    let tors = m5::torsion_points();
+    let mut out = vec![];
+    if p.on_curve() {
+        // [8^-1 mod r_J] P and all its torsion translates: the complete set of
+        // on-curve preimages of the subgroup component of P under [8]
+        let q0 = p.mul(&m5::eight_inv()).unwrap();
+        for (i, t) in tors.iter().enumerate() {
+            out.push((format!("8inv*P+T{}", i), q0.add(t).unwrap()));
+        }
+        out.push(("P".to_string(), *p));
+    }
+    out.push(("O".to_string(), Pt::identity()));
+    let g = Pt::from_jubjub(GENERATOR_EXTENDED);
+    out.push(("G".to_string(), g));
+    for (n, q) in offcurve_points().into_iter().take(tier.pick(3, 6)) {
+        out.push((n, q));
+    }
+    // off-curve Q that would still make the doubling chain land on P when P is simple
+    out.push(("(Px,Py)+(1,0)".to_string(), Pt { x: p.x + one(), y: p.y }));
+    out
+}
+
+fn eight_times(q: &Pt) -> Option<Pt> {
+    q.double()?.double()?.double()
+}
+
+pub fn cases(tier: Tier) -> Vec<GCase> {
+    let mut out = vec![];
+    for (pn, p) in candidates(tier) {
+        let member = p.in_subgroup();
+        // honest entry point
+        let g = Gadget::new(&format!("assert_torsion_free_point/{}", pn), vec![p.x, p.y], |c, ins| {
+            let pt = c.verif_point(ins[0], ins[1]);
+            c.assert_torsion_free_point(pt);
+            Ok(vec![])
+        });
+        let mut c = GCase::new(g, if member { Expect::Sat(vec![]) } else { Expect::Unsat }, if member { "torsion-free/member" } else { "torsion-free/non-member" });
+        c.bound2 = tier == Tier::Thorough && !member;
+        out.push(c);
+        // prover-chosen auxiliary point
+        for (qn, q) in aux_points(&p, tier) {
+            let valid_q = q.on_curve() && eight_times(&q) == Some(p);
+            let (qu, qv) = (q.x, q.y);
+            let g = Gadget::new(&format!("torsion_free_gates/{}/Q={}", pn, qn), vec![p.x, p.y], move |c, ins| {
+                let pt = c.verif_point(ins[0], ins[1]);
+                c.verif_assert_torsion_free_gates(pt, qu, qv);
+                Ok(vec![])
+            });
+            let (e, class) = if !member {
+                (Expect::Unsat, "torsion-free-gates/non-member")
+            } else if valid_q {
+                (Expect::Sat(vec![]), "torsion-free-gates/member/valid-Q")
+            } else {
+                (Expect::UnsatHonest, "torsion-free-gates/member/invalid-Q")
+            };
+            let mut c = GCase::new(g, e, class);
+            c.confirm = tier == Tier::Thorough || qn.starts_with("8inv") || qn == "O";
+            out.push(c);
+        }
+    }
+    out
+}
+
+#[derive(Clone)]
+struct Rep {
+    name: String,
+    ext: JubJubExtended,
+    /// Z != 0
+    representable: bool,
+    /// T1*T2*Z == U*V
+    consistent: bool,
+    affine: Option<Pt>,
+}
+
+fn representations(pn: &str, p: &Pt) -> Vec<Rep> {
+    let mut out = vec![];
+    let mk = |name: &str, u: Fe, v: Fe, z: Fe, t1: Fe, t2: Fe| {
+        let representable = z != zero();
+        let affine = if representable { Some(Pt { x: u * inv(z), y: v * inv(z) }) } else { None };
+        Rep { name: format!("{}/{}", pn, name), ext: JubJubExtended::from_raw_unchecked(u, v, z, t1, t2), representable, consistent: t1 * t2 * z == u * v, affine }
+    };
+    out.push(mk("affine-normal", p.x, p.y, one(), p.x, p.y));
+    let z = fe(7);
+    out.push(mk("scaled-Z", p.x * z, p.y * z, z, p.x, p.y * z));
+    out.push(mk("Z=0", p.x, p.y, zero(), p.x, p.y));
+    out.push(mk("Z=0,all-zero", zero(), zero(), zero(), zero(), zero()));
+    out.push(mk("inconsistent-T", p.x, p.y, one(), p.x + one(), p.y));
+    out
+}
+
+fn direct_entry_points(run: &mut Run, tier: Tier) {
+    let mut reps = vec![];
+    for (pn, p) in candidates(tier) {
+        reps.extend(representations(&pn, &p));
+    }
+    let mut n_z0 = 0;
+    for r in &reps {
+        let member = r.affine.map(|a| a.in_subgroup()).unwrap_or(false);
+        let prime_order = member && r.affine != Some(Pt::identity());
+        if !r.representable {
+            n_z0 += 1;
+        }
+        type Call = Box<dyn Fn(&mut Composer, JubJubExtended) -> Result<Option<(Fe, Fe)>, Error>>;
+        let calls: Vec<(&str, Call)> = vec![
+            ("append_point", Box::new(|c, e| c.append_point(e).map(|w| Some((c[*w.x()], c[*w.y()]))))),
+            ("append_public_point", Box::new(|c, e| c.append_public_point(e).map(|w| Some((c[*w.x()], c[*w.y()]))))),
+            ("append_constant_point", Box::new(|c, e| c.append_constant_point(e).map(|w| Some((c[*w.x()], c[*w.y()]))))),
+            (
+                "assert_equal_public_point",
+                Box::new(|c, e| {
+                    let w = c.append_point(JubJubExtended::from(dusk_jubjub::GENERATOR))?;
+                    c.assert_equal_public_point(w, e).map(|_| None)
+                }),
+            ),
+            (
+                "component_mul_generator",
+                Box::new(|c, e| {
+                    let s = c.append_witness(fe(1));
+                    c.component_mul_generator(s, e).map(|w| Some((c[*w.x()], c[*w.y()])))
+                }),
+            ),
+        ];
+        for (name, call) in calls {
+            run.transitions += 1;
+            run.evaluations += 1;
+            run.traces_validated += 1;
+            let ext = r.ext;
+            let res = std::panic::catch_unwind(std::panic::AssertUnwindSafe(|| {
+                let mut c = Composer::initialized();
+                call(&mut c, ext)
+            }));
+            let case = json!({"entry": name, "representation": r.name});
+            run.nontrivial(fnv(format!("{}{}", name, r.name).as_bytes()));
+            let rep_class = r.name.rsplit('/').next().unwrap_or("").to_string();
+            match res {
+                Err(p) => {
+                    run.outcome(&format!("{}:panic", name));
+                    run.violation(&format!("entry/{}/panic/{}", name, rep_class), &format!("{} panicked on {}: {}", name, r.name, crate::par::panic_msg(p)), case);
+                }
+                Ok(res) => {
+                    let ok = res.is_ok();
+                    run.outcome(&format!("{}:{}", name, if ok { "ok" } else { "err" }));
+                    let must: Option<bool> = if !r.representable {
+                        Some(false)
+                    } else {
+                        match name {
+                            "append_constant_point" => {
+                                if !member {
+                                    Some(false)
+                                } else if r.consistent {
+                                    Some(true)
+                                } else {
+                                    None
+                                }
+                            }
+                            "component_mul_generator" => {
+                                if !prime_order {
+                                    Some(false)
+                                } else if r.consistent {
+                                    Some(true)
+                                } else {
+                                    None
+                                }
+                            }
+                            _ => Some(true),
+                        }
+                    };
+                    if let Some(m) = must {
+                        if m != ok {
+                            run.violation(
+                                &format!("entry/{}/{}/{}", name, if ok { "accepted" } else { "rejected" }, rep_class),
+                                &format!("{} {} {} (member={}, representable={}, consistent={}): {:?}", name, if ok { "accepted" } else { "rejected" }, r.name, member, r.representable, r.consistent, res.as_ref().err()),
+                                case.clone(),
+                            );
+                        }
+                    }
+                    // accepted points must be allocated with the affine image
+                    if let (Ok(Some((x, y))), Some(a)) = (&res, &r.affine) {
+                        if name != "component_mul_generator" && (*x != a.x || *y != a.y) {
+                            run.violation(&format!("entry/{}/wrong-coordinates", name), &format!("{} allocated ({}, {}) for {}", name, hex(x), hex(y), r.name), case);
+                        }
+                    }
+                }
+            }
+        }
+    }
+    run.gate("zero-Z representations exercised", n_z0 > 0);
+    let _ = Prog::new(|_| Ok(()));
+}
+
+pub fn main(tier: Tier, replay: Option<serde_json::Value>) -> i32 {
+    let mut run = Run::new("C13", tier, "model_checking");
+    run.rule = "P over subgroup points, every torsion coset S + T (T in E[8] \\ {O}: orders 2, 4, 8) and off-curve pairs; Q over the complete on-curve preimage set [8^-1]P + T' (all 8 T'), other on-curve points and off-curve pairs; every (P, Q) through the real torsion-free gates (seam) plus bound-1 deviations, decided by M1; oracle: satisfiable iff Q on-curve and [8]Q = P (own affine Edwards arithmetic), hence for some Q iff P is an on-curve subgroup member; the direct entry points over extended representations (normal, scaled Z, Z = 0, inconsistent T1 T2) must accept exactly members (generator: and non-identity) and reject Z = 0 without panicking".into();
+    let cs = cases(tier);
+    let cache = ConfirmCache::new(crate::setup::pp(64));
+    if let Some(r) = replay {
+        return crate::gadget::replay(run, &cs, &cache, &r);
+    }
+    let tors = m5::torsion_points();
+    run.gate("8 torsion points of orders 1,2,4,4,8,8,8,8", tors.len() == 8 && tors.iter().all(|t| t.on_curve()));
+    let names: Vec<String> = cs.iter().map(|c| c.g.name.clone()).collect();
+    let reps = crate::par::par_map(&cs, |c| run_case(c, &cache));
+    absorb(&mut run, reps, &names);
+    direct_entry_points(&mut run, tier);
+    run.gate("members and non-members explored", run.count("honest:sat") > 0 && run.count("honest:unsat") > 0);
+    run.assumptions = vec![
+        "M1 row model (bound to the prover by C05) decides satisfiability".into(),
+        "own affine twisted-Edwards arithmetic (M5) states the group law and subgroup membership".into(),
+        "P and Q range over the listed structural classes, not all field pairs".into(),
+    ];
+    run.finish()
 }
